@@ -4,6 +4,7 @@ from props.tr31util import VERS, rb, rs, rand_blocks, make_header, header_tuple,
 from core import call_impl
 
 OBLIGATIONS = ["Psec.Props.C01.wrap_unwrap", "Psec.Props.C01.wrap_header_string", "Psec.Props.C01.wrap_readonly", "Psec.Tr31.blocks_load_dump", "Psec.Tr31.load_assemble", "Psec.Tr31.wrap_facts", "Psec.Tr31.extractKey_clear", "Psec.Props.C01.wrap_unwrap_ref"]
+TABLE_OBLIGATIONS = ["Psec.Tables.wrapDispatch_by_table", "Psec.Tables.unwrapDispatch_by_table", "Psec.Tables.wrap_dispatch_agree", "Psec.Tables.unwrap_dispatch_agree"]   # model = tables regenerated from the source (harness/tables.py)
 TRUSTED_BASE = ["Lean 4.33 kernel", "hypothesis Ciphers.Lawful", "correspondence harness (entropy interposed) and compiled driver", "Python str/bytes/dict semantics as modelled in Py.lean"]
 RULE = ("versions A-D x admissible and inadmissible KBPK sizes x key lengths 0..64 and a tail up to ~4900 x masks {omitted, negative, <, =, >, huge} x random alphanumeric "
         "header fields x reserved != 00 x 0..98 optional blocks with data lengths around 0, 247-256, 300 and up to the 9999 limit x headers passed as objects and strings; "
